@@ -42,6 +42,9 @@ type gcCase struct {
 	PrevKey    bool   `json:"record0_carries_a_previous_certificate_key,omitempty"` // record 0 was created by a rotation and names its predecessor's key, whose own record is gone; signer code -5 = that old key
 	NodeIDForm string `json:"node_id_form,omitempty"`                               // "": the node ID as registered; otherwise a different string that a canonicalising lookup would map onto it
 	PkixBy     *int   `json:"request_key_of,omitempty"`                             // signer code whose key the request names as certificate key (default: the nonce signer's)
+	// PkixEdit (key-ID path): the named certificate key is a registered key's PKIX bytes with bytes appended /
+	// the last byte dropped / one bit of the last byte flipped: a different byte string, for which no record exists
+	PkixEdit string `json:"named_key_edit,omitempty"`
 }
 
 func permutations(n int) [][]int {
@@ -210,6 +213,22 @@ func runGCCase(c *engine.Ctx, gc gcCase) {
 		case code == -2:
 			req.CertificatePublicKeyPkix = unreg.Pkix
 		}
+	}
+	if gc.PkixEdit != "" && gc.Path != "nodeid" {
+		b := append([]byte{}, req.CertificatePublicKeyPkix...)
+		switch gc.PkixEdit {
+		case "append-1":
+			b = append(b, 0)
+		case "append-3":
+			b = append(b, 1, 2, 3)
+		case "append-44":
+			b = append(b, b...)
+		case "drop-last":
+			b = b[:len(b)-1]
+		case "flip-last-bit":
+			b[len(b)-1] ^= 1
+		}
+		req.CertificatePublicKeyPkix = b
 	}
 	if gc.Path != "keyid" {
 		req.NodeId = gcNodeIDForm("N", gc.NodeIDForm)
@@ -561,6 +580,11 @@ func runGenCerts(c *engine.Ctx) engine.Result {
 		}
 		cases = append(cases, gcCase{Path: path, Records: 1, Order: []int{0}, NonceBy: 0, EmptyNonce: true})
 		cases = append(cases, gcCase{Path: path, Records: 1, Order: []int{0}, NonceBy: -2, SkipLocal: true})
+		for _, ed := range []string{"append-1", "append-3", "append-44", "drop-last", "flip-last-bit"} {
+			for _, st := range []bool{false, true} {
+				cases = append(cases, gcCase{Path: path, Records: 2, Order: []int{0, 1}, NonceBy: 0, State: st, StateBy: 0, PkixEdit: ed, Wrap: st})
+			}
+		}
 	}
 	cases = append(cases, gcCase{Path: "nodeid", Records: 2, Order: []int{1, 0}, NonceBy: -2, SkipLocal: true})
 	cases = append(cases, gcCase{Path: "nodeid", Records: 2, Order: []int{1, 0}, NonceBy: 0, EmptyNonce: true})
